@@ -33,11 +33,11 @@ Qed.
 Section P.
 Variable lexfuel : nat.
 (** the lift through the parser is generic: [L] is any property of the lexer that every pulled token preserves,
-    [bad] any set of lexer outcomes that cannot happen under [L] (and does not contain the step budget [PHang]) *)
+    [bad] any set of lexer outcomes that cannot happen under [L] (and does not contain the parser's loop budget) *)
 Variable L : lexer -> Prop.
 Variable bad : pulled -> Prop.
 Hypothesis Hnext : forall lx, L lx -> match next_token lexfuel lx with PTok _ lx' => L lx' | c => ~ bad c end.
-Hypothesis Hhang : ~ bad PHang.
+Hypothesis Hbudget : ~ bad PBudget.
 
 Definition P (p : parser) : Prop := L (p_lexer p).
 
@@ -149,29 +149,29 @@ Qed.
 
 Lemma parse_loop_ok fuel : forall p, P p -> okr P (parse_loop lexfuel fuel p).
 Proof.
-  induction fuel as [|f IH]; intros p H; cbn [parse_loop]; [exact Hhang|].
+  induction fuel as [|f IH]; intros p H; cbn [parse_loop]; [exact Hbudget|].
   pose proof (parse_step_ok (S f) p H) as Hs. destruct (parse_step lexfuel (S f) p) as [p1|e q|c]; cbn [okr] in *; [|exact I|exact Hs].
   destruct (toktype_eqb _ TEOF); [exact Hs|apply IH; exact Hs].
 Qed.
 End P.
 
 (** the whole parse, for any such [L] and [bad] *)
-Theorem parse_never_bad (L : lexer -> Prop) (bad : pulled -> Prop) :
-  (forall fuel lx, L lx -> match next_token fuel lx with PTok _ lx' => L lx' | c => ~ bad c end) -> ~ bad PHang ->
-  forall input, L (new_lexer input) -> forall c, parse_bytes input = Crashed c -> ~ bad c.
+Theorem parse_never_bad (L : lexer -> Prop) (bad : pulled -> Prop) input :
+  (forall lx, L lx -> match next_token (lex_fuel input) lx with PTok _ lx' => L lx' | c => ~ bad c end) -> ~ bad PBudget ->
+  L (new_lexer input) -> forall c, parse_bytes input = Crashed c -> ~ bad c.
 Proof.
-  intros Hnext Hhang input H0 c. unfold parse_bytes. cbv zeta. cbn [p_lexer].
-  pose proof (Hnext (lex_fuel input) (new_lexer input) H0) as Hn.
-  destruct (next_token (lex_fuel input) (new_lexer input)) as [t lx| | |]; try (intro K; injection K as <-; exact Hn).
+  intros Hnext Hbudget H0 c. unfold parse_bytes. cbv zeta. cbn [p_lexer].
+  pose proof (Hnext (new_lexer input) H0) as Hn.
+  destruct (next_token (lex_fuel input) (new_lexer input)) as [t lx| | | |]; try (intro K; injection K as <-; exact Hn).
   match goal with |- context [parse_loop ?lf ?pf ?p1] =>
-    pose proof (parse_loop_ok lf L bad (Hnext lf) Hhang pf p1 Hn) as Hl; destruct (parse_loop lf pf p1) as [p2|e p2|c2] end;
+    pose proof (parse_loop_ok lf L bad Hnext Hbudget pf p1 Hn) as Hl; destruct (parse_loop lf pf p1) as [p2|e p2|c2] end;
     cbn [okr] in Hl; try discriminate. intro K. injection K as <-. exact Hl.
 Qed.
 
 Theorem parse_never_deadlocks input : parse_bytes input <> Crashed PDeadlock.
 Proof.
-  intro K. refine (parse_never_bad lok (fun c => c = PDeadlock) _ _ input _ PDeadlock K eq_refl).
-  - intros fuel lx H. pose proof (next_token_ok fuel lx H) as Hn. destruct (next_token fuel lx); try discriminate; [exact Hn|contradiction].
+  intro K. refine (parse_never_bad lok (fun c => c = PDeadlock) input _ _ _ PDeadlock K eq_refl).
+  - intros lx H. pose proof (next_token_ok (lex_fuel input) lx H) as Hn. destruct (next_token (lex_fuel input) lx); try discriminate; [exact Hn|contradiction].
   - discriminate.
   - reflexivity.
 Qed.
